@@ -88,14 +88,18 @@ def concretize(I, v, m, depth=0):
             except Exception:
                 pass
             return {"__t__": "hash", "name": "SHA256"}
-        return {"__t__": "ref", "kind": v.kind}
+        return {"__t__": "unsupported", "what": f"external object {v.kind}"}
     if isinstance(v, SObj):
         return {"__t__": "obj", "cls": v.cls.ref, "fields": {k: concretize(I, x, m, depth + 1) for k, x in v.fields.items()}}
     if isinstance(v, list):
         return {"__t__": "list", "items": [concretize(I, x, m, depth + 1) for x in v]}
     if isinstance(v, tuple):
         return {"__t__": "tuple", "items": [concretize(I, x, m, depth + 1) for x in v]}
-    return None
+    from .values import ClassRef
+
+    if isinstance(v, ClassRef):
+        return {"__t__": "class", "ref": v.cls.ref}
+    return {"__t__": "unsupported", "what": type(v).__name__}
 
 
 def concretize_call(I, c, m):
@@ -130,6 +134,8 @@ def try_replay(prop, v, P, REG, repo):
     meta = v.get("replay_meta") or {}
     if not inputs:
         return False, {"note": "the solver gave no usable counter-model for the function's inputs"}
+    if '"unsupported"' in json.dumps(inputs.get("args")) and not meta.get("setup"):
+        return False, {"note": "the inputs contain an external object that the generic replay cannot construct", "inputs": inputs}
     if meta.get("skip"):
         return False, {"note": "no generic replay for this function: " + meta["skip"], "inputs": inputs}
     stubs = {}
